@@ -62,7 +62,21 @@ def _impl_matrix(calc, aln, names):
     mat = [[float(arr[idx[a], idx[b]]) for b in names] for a in names]
     order = {n: i for i, n in enumerate(c.names)}
     seqs = [[int(v) for v in c.indexed_seqs[order[n]]] for n in names]
+    dup = c.duplicated or {}
+    _impl_matrix.last_dup_names = set(dup) | {x for v in dup.values() for x in v}
     return mat, seqs
+
+
+def _model_variant():
+    """which duplicate test the tree under test implements: 'asis' (no off-diagonal count => alias) or
+    'repaired' (alias only for equal index arrays) -- decided by a behavioural probe on the witness alignment"""
+    names = ["s0", "s1", "s2"]
+    aln = _make_aln(list(zip(names, ["ACGTNN", "ACGTAC", "ACGATT"])), "dna")
+    try:
+        mat, _ = _impl_matrix("pdist", aln, names)
+    except Exception:
+        return "asis"
+    return "repaired" if mat[1][2] == 0.5 and mat[0][2] == 0.25 else "asis"
 
 
 def _impl_distance_matrix(calc, aln, names):
@@ -260,7 +274,7 @@ def correspondence(ctx):
         add_failure(out, "corr", "UPGMA BIG_NUM differs", "BIG_NUM", BIG, upgma_mod.BIG_NUM, confirmed=False)
 
     # 1. estimators
-    n_aln = ctx.budget(70, 900)
+    n_aln = ctx.budget(160, 1500)
     alns = [gen_alignment(rng) for _ in range(n_aln)]
     # hand-made corner cases
     alns += [
@@ -272,6 +286,8 @@ def correspondence(ctx):
         ("dna", "ACGT", [("s0", "AACCTTAACC"), ("s1", "ACCCTTAACT"), ("s2", "ACCCTTAAGT")]),
     ]
     reqs, meta = [], []
+    variant = _model_variant()
+    bump(out, "duplicate_test_variant", variant)
     for ai, (moltype, canon, seqs) in enumerate(alns):
         names = [n for n, _ in seqs]
         aln = _make_aln(seqs, moltype, array_align=(ai % 3 != 0))
@@ -282,7 +298,7 @@ def correspondence(ctx):
                 add_failure(out, "corr", f"implementation raised {type(e).__name__} ({calc})", dict(moltype=moltype, seqs=seqs, calc=calc), "a matrix", repr(e), confirmed=False)
                 continue
             pub = _impl_distance_matrix(calc, aln, names)
-            reqs.append(("dist", dict(calc=calc, seqs=idx)))
+            reqs.append(("dist", dict(calc=calc, seqs=idx, variant=variant)))
             meta.append((moltype, seqs, calc, mat, pub))
     replies = ctx.driver.batch(reqs)
     for (moltype, seqs, calc, mat, pub), rep in zip(meta, replies):
@@ -338,14 +354,14 @@ def correspondence(ctx):
 
     # 2. NJ
     nj_cases = []
-    for _ in range(ctx.budget(50, 700)):
+    for _ in range(ctx.budget(120, 1500)):
         n = rng.choice([3, 4, 4, 5, 5, 6, 7, 8, 10, 12, 16, 20, 25])
         names = _names(n)
         lab = names[:]
         rng.shuffle(lab)
         t = U.gen_additive_tree(rng, lab, multifurc=rng.random() < 0.25)
         nj_cases.append(("additive", names, U.tip_dists(t)))
-    for _ in range(ctx.budget(40, 500)):
+    for _ in range(ctx.budget(100, 1200)):
         n = rng.choice([3, 4, 5, 6, 7, 8, 10, 12])
         names, d = gen_generic_matrix(rng, n)
         nj_cases.append(("generic", names, d))
@@ -377,14 +393,14 @@ def correspondence(ctx):
 
     # 3. UPGMA
     up_cases = []
-    for _ in range(ctx.budget(50, 700)):
+    for _ in range(ctx.budget(120, 1500)):
         n = rng.choice([2, 3, 4, 4, 5, 6, 7, 8, 10, 12, 16, 20, 25])
         names = _names(n)
         lab = names[:]
         rng.shuffle(lab)
         t = U.gen_ultrametric_tree(rng, lab, multifurc=rng.random() < 0.5)
         up_cases.append(("ultrametric", names, U.tip_dists(t)))
-    for _ in range(ctx.budget(40, 500)):
+    for _ in range(ctx.budget(100, 1200)):
         names, d = gen_generic_matrix(rng, rng.choice([2, 3, 4, 5, 6, 7, 8, 10, 12]))
         up_cases.append(("generic", names, d))
     reps = ctx.driver.batch([("upgma", dict(n=len(names), d=_mat_req(names, d), big=rat(BIG))) for _, names, d in up_cases])
@@ -412,6 +428,13 @@ def correspondence(ctx):
 # --------------------------------------------------------------------------
 # spec-level differential: real implementation vs independent oracles
 # --------------------------------------------------------------------------
+def _spec_fail(out, what, inp, expected, got, sig):
+    """keep at most 4 instances per failure class so that no class is ever crowded out of the report"""
+    bump(out, "spec_failures_by_sig", sig)
+    if out["dist"]["spec_failures_by_sig"][sig] <= 4:
+        add_failure(out, "spec", what, inp, expected, got, sig=sig)
+
+
 def _oracle_matrix(calc, canon, seqs):
     n = len(seqs)
     return [[0.0 if a == b else U.oracle_pair(calc, seqs[a][1], seqs[b][1], canon) for b in range(n)] for a in range(n)]
@@ -438,18 +461,27 @@ def _check_alignment(out, moltype, canon, seqs, calcs, rng=None, relations=True)
         except Exception as e:
             add_failure(out, "spec", f"{calc}: implementation raised {type(e).__name__}", inp, "a distance matrix", repr(e), sig=f"est:{calc}:raises:{type(e).__name__}")
             continue
+        dupnames = set(_impl_matrix.last_dup_names)
         exp = _oracle_matrix(calc, "ACGT" if moltype == "dna" else "ACGU", seqs)
         nontriv = False
+        reported = set()
+
+        def fail(what, inp_, expected, got, sig):
+            # one report per (alignment, calc, failure class)
+            if sig not in reported:
+                reported.add(sig)
+                _spec_fail(out, what, inp_, expected, got, sig)
+
         for a in range(n):
             for b in range(n):
                 g, e = mat[a][b], exp[a][b]
                 cls = "noncanon" if any_nc else "canon"
                 if a == b:
                     if g != 0:
-                        add_failure(out, "spec", f"{calc}: non-zero diagonal", dict(inp, cell=[a, b]), 0.0, g, sig=f"est:{calc}:diag")
+                        fail(f"{calc}: non-zero diagonal", dict(inp, cell=[a, b]), 0.0, g, f"est:{calc}:diag")
                     continue
                 if not _same_float(g, mat[b][a], rel=0):
-                    add_failure(out, "spec", f"{calc}: matrix not symmetric", dict(inp, cell=[a, b]), mat[b][a], g, sig=f"est:{calc}:asym:{cls}")
+                    fail(f"{calc}: matrix not symmetric", dict(inp, cell=[a, b]), mat[b][a], g, f"est:{calc}:asym:{cls}")
                 if e == U.UNDEF:
                     bump(out, "oracle", "tn93-undefined(0/0)")
                     continue
@@ -458,22 +490,27 @@ def _check_alignment(out, moltype, canon, seqs, calcs, rng=None, relations=True)
                     if not math.isnan(g):
                         cols = sum(1 for x, y in zip(seqs[a][1], seqs[b][1]) if x in canon and y in canon)
                         why = "no-shared-columns" if cols == 0 else "log-undefined"
+                        if cols == 0 and g == 0 and all(x not in canon and y not in canon for x, y in zip(seqs[a][1], seqs[b][1])):
+                            # both sequences consist of non-canonical symbols only: they are the same index array,
+                            # reporting them as identical (0.0) is accepted
+                            bump(out, "oracle", "identical-all-noncanonical")
+                            continue
                         # numerically delicate validity decisions (det ~ 0) are not failures
                         mg = U.validity_margin(calc, seqs[a][1], seqs[b][1], canon)
                         if why == "log-undefined" and mg is not None and mg < 1e-9:
                             bump(out, "oracle", "delicate-validity")
                             continue
-                        add_failure(out, "spec", f"{calc}: a distance was returned for a pair where the estimator is undefined ({why})", dict(inp, cell=[a, b]), "invalid (nan)", g, sig=f"est:{why}:{cls}")
+                        fail(f"{calc}: a distance was returned for a pair where the estimator is undefined ({why})", dict(inp, cell=[a, b]), "invalid (nan)", g, f"est:{why}:dup-alias" if (names[a] in dupnames or names[b] in dupnames or why == "no-shared-columns") else f"est:{why}:{calc}:direct")
                     continue
                 if math.isnan(g):
                     mg = U.validity_margin(calc, seqs[a][1], seqs[b][1], canon)
                     if mg is not None and mg < 1e-9:
                         bump(out, "oracle", "delicate-validity")
                         continue
-                    add_failure(out, "spec", f"{calc}: no distance for a pair where the published formula is defined", dict(inp, cell=[a, b]), e, g, sig=f"est:{calc}:nan:{cls}")
+                    fail(f"{calc}: no distance for a pair where the published formula is defined", dict(inp, cell=[a, b]), e, g, "est:nan:dup-alias" if (names[a] in dupnames or names[b] in dupnames) else f"est:nan:{calc}:direct")
                     continue
                 if not _same_float(g, e):
-                    add_failure(out, "spec", f"{calc}: distance differs from the published formula evaluated on the pair", dict(inp, cell=[a, b]), e, g, sig=f"est:value:{cls}")
+                    fail(f"{calc}: distance differs from the published formula evaluated on the pair", dict(inp, cell=[a, b]), e, g, f"est:value:dup-alias" if (names[a] in dupnames or names[b] in dupnames) else f"est:value:{calc}:direct")
                 elif e != 0:
                     nontriv = True
         if nontriv:
@@ -489,20 +526,20 @@ def _check_alignment(out, moltype, canon, seqs, calcs, rng=None, relations=True)
             for a in range(n):
                 for b in range(n):
                     if not _same_float(pm[a][b], mat[a][b], rel=1e-12):
-                        add_failure(out, "spec", f"{calc}: distance depends on column order", dict(inp, perm=perm, cell=[a, b]), mat[a][b], pm[a][b], sig=f"est:{calc}:colperm")
+                        fail(f"{calc}: distance depends on column order", dict(inp, perm=perm, cell=[a, b]), mat[a][b], pm[a][b], f"est:{calc}:colperm")
                         break
             # each distance depends only on the two sequences; non-canonical columns of the pair are skipped
             a, b = rng.sample(range(n), 2)
             sub = [seqs[a], seqs[b]]
             sm, _ = _impl_matrix(calc, _make_aln(sub, moltype), [names[a], names[b]])
             if not _same_float(sm[0][1], mat[a][b], rel=1e-12):
-                add_failure(out, "spec", f"{calc}: distance of a pair changes with the other sequences present", dict(inp, cell=[a, b]), sm[0][1], mat[a][b], sig=f"est:pair-independence:{'noncanon' if any_nc else 'canon'}")
+                fail(f"{calc}: distance of a pair changes with the other sequences present", dict(inp, cell=[a, b]), sm[0][1], mat[a][b], "est:pair-independence:dup-alias" if (names[a] in dupnames or names[b] in dupnames) else f"est:pair-independence:{calc}:direct")
             keep = [k for k in range(L) if sub[0][1][k] in canon and sub[1][1][k] in canon]
             if 0 < len(keep) < L:
                 fsub = [(nm, "".join(s[k] for k in keep)) for nm, s in sub]
                 fm, _ = _impl_matrix(calc, _make_aln(fsub, moltype), [names[a], names[b]])
                 if not _same_float(fm[0][1], sm[0][1], rel=1e-12):
-                    add_failure(out, "spec", f"{calc}: non-canonical columns are not ignored", dict(inp, cell=[a, b]), fm[0][1], sm[0][1], sig=f"est:{calc}:noncanon-cols")
+                    fail(f"{calc}: non-canonical columns are not ignored", dict(inp, cell=[a, b]), fm[0][1], sm[0][1], f"est:{calc}:noncanon-cols")
     if len(out["samples"]) < 2 and n >= 3 and any_nc:
         out["samples"].append(dict(moltype=moltype, seqs=seqs))
 
@@ -517,22 +554,22 @@ def _check_nj(out, names, tree, how, binary):
         with _JoinRecorder() as rec:
             got = _impl_nj(names, d, how)
     except Exception as e:
-        add_failure(out, "spec", f"{how} raised {type(e).__name__} on an additive matrix", inp, "the generating tree", repr(e), sig=f"nj:{how}:raises:{type(e).__name__}")
+        _spec_fail(out, f"{how} raised {type(e).__name__} on an additive matrix", inp, "the generating tree", repr(e), f"nj:{how}:raises:{type(e).__name__}")
         return
     if sorted(U.tip_names(got)) != sorted(names):
-        add_failure(out, "spec", f"{how}: tips differ", inp, sorted(names), sorted(U.tip_names(got)), sig=f"nj:{how}:tips")
+        _spec_fail(out, f"{how}: tips differ", inp, sorted(names), sorted(U.tip_names(got)), f"nj:{how}:tips")
         return
     why = U.dict_close(d, U.tip_dists(got), TREE_TOL)
     if why:
-        add_failure(out, "spec", f"{how}: path lengths of the result differ from the additive matrix", inp, "d(x,y) for all tips", why, sig=f"nj:{how}:dists:{shape}")
+        _spec_fail(out, f"{how}: path lengths of the result differ from the additive matrix", inp, "d(x,y) for all tips", why, f"nj:{how}:dists:{shape}")
         return
     why = U.dict_close(U.unrooted_splits(tree, 0), U.unrooted_splits(got, TREE_TOL), TREE_TOL)
     if why:
-        add_failure(out, "spec", f"{how}: topology / branch lengths differ from the generating tree", inp, "splits of the generating tree", why, sig=f"nj:{how}:splits:{shape}")
+        _spec_fail(out, f"{how}: topology / branch lengths differ from the generating tree", inp, "splits of the generating tree", why, f"nj:{how}:splits:{shape}")
         return
     neg = [l for l in U.unrooted_splits(got, -1).values() if l < 0]
     if neg:
-        add_failure(out, "spec", f"{how}: negative branch length", inp, ">= 0", neg[:3], sig=f"nj:{how}:negative")
+        _spec_fail(out, f"{how}: negative branch length", inp, ">= 0", neg[:3], f"nj:{how}:negative")
     if binary:
         # per-instance check of the Studier-Keppler hypothesis: every join is a clade of the generating tree
         allt = frozenset(names)
@@ -543,7 +580,7 @@ def _check_nj(out, names, tree, how, binary):
             key = allt - s if anchor in s else s
             if key not in splits:
                 bump(out, "nj_join_not_a_cherry")
-                add_failure(out, "spec", f"{how}: a joined pair is not a cherry of the (reduced) generating tree", dict(inp, join=[sorted(a), sorted(b)]), "cherry", "not a split of the generating tree", sig=f"nj:{how}:non-cherry-join")
+                _spec_fail(out, f"{how}: a joined pair is not a cherry of the (reduced) generating tree", dict(inp, join=[sorted(a), sorted(b)]), "cherry", "not a split of the generating tree", f"nj:{how}:non-cherry-join")
                 break
         else:
             bump(out, "nj_joins_all_cherries", len(rec.joins))
@@ -558,22 +595,22 @@ def _check_upgma(out, names, tree):
     try:
         got = _impl_upgma(names, d)
     except Exception as e:
-        add_failure(out, "spec", f"upgma raised {type(e).__name__} on an ultrametric matrix", inp, "the generating tree", repr(e), sig=f"upgma:raises:{type(e).__name__}")
+        _spec_fail(out, f"upgma raised {type(e).__name__} on an ultrametric matrix", inp, "the generating tree", repr(e), f"upgma:raises:{type(e).__name__}")
         return
     if sorted(U.tip_names(got)) != sorted(names):
-        add_failure(out, "spec", "upgma: tips differ", inp, sorted(names), sorted(U.tip_names(got)), sig="upgma:tips")
+        _spec_fail(out, "upgma: tips differ", inp, sorted(names), sorted(U.tip_names(got)), "upgma:tips")
         return
     why = U.dict_close(d, U.tip_dists(got), TREE_TOL)
     if why:
-        add_failure(out, "spec", "upgma: path lengths of the result differ from the ultrametric matrix", inp, "d(x,y) for all tips", why, sig="upgma:dists")
+        _spec_fail(out, "upgma: path lengths of the result differ from the ultrametric matrix", inp, "d(x,y) for all tips", why, "upgma:dists")
         return
     why = U.dict_close(U.rooted_clades(tree, 0), U.rooted_clades(got, TREE_TOL), TREE_TOL)
     if why:
-        add_failure(out, "spec", "upgma: clades / branch lengths differ from the generating tree", inp, "clades of the generating tree", why, sig="upgma:clades")
+        _spec_fail(out, "upgma: clades / branch lengths differ from the generating tree", inp, "clades of the generating tree", why, "upgma:clades")
         return
     neg = [l for l in U.rooted_clades(got, -1).values() if l < 0]
     if neg:
-        add_failure(out, "spec", "upgma: negative branch length", inp, ">= 0", neg[:3], sig="upgma:negative")
+        _spec_fail(out, "upgma: negative branch length", inp, ">= 0", neg[:3], "upgma:negative")
     out["nontrivial"].add(("upgma", _tree_key(tree)))
     bump(out, "upgma_spec", len(names))
 
@@ -623,13 +660,13 @@ def spec_check(ctx, budget):
         if rng.random() < min(1.0, 0.25 * budget):
             seqs = [(f"s{i}", s) for i, s in enumerate(trio)]
             _check_alignment(out, "dna", "ACGT", seqs, ["pdist"], rng, relations=False)
-    for k in range(45 * budget):
+    for k in range(100 * budget):
         moltype, canon, seqs = gen_alignment(rng)
         calcs = CALCS if k % 2 == 0 else rng.sample(CALCS, 3)
         _check_alignment(out, moltype, canon, seqs, calcs, rng)
     # --- NJ
     hows = ["nj", "gnj", "dm.quick_tree", "app.quick_tree"]
-    for k in range(50 * budget):
+    for k in range(120 * budget):
         n = rng.choice([3, 4, 4, 5, 5, 6, 7, 8, 9, 10, 12, 14, 16, 20, 25])
         lab = _names(n)
         names = lab[:]
@@ -646,7 +683,7 @@ def spec_check(ctx, budget):
             t = ("node", [(l[4], ("node", [(l[0], ("tip", a)), (l[1], ("tip", b))])), (l[2], ("tip", c)), (l[3], ("tip", d))])
             _check_nj(out, sorted(perm), t, "nj", True)
     # --- UPGMA
-    for k in range(50 * budget):
+    for k in range(120 * budget):
         n = rng.choice([2, 3, 4, 4, 5, 5, 6, 7, 8, 9, 10, 12, 14, 16, 20, 25])
         lab = _names(n)
         names = lab[:]
